@@ -50,6 +50,58 @@ def gen(rng):
     return size, pos, off, ops
 
 
+def gen_fill(rng):
+    """Fill the partition completely (first and last address in use), then free first / last / neighbours so that
+    merges with the previous, the next and BOTH neighbours happen, then ask for large runs."""
+    size = rng.choice([4, 5, 6, 8, 10, 12, 16])
+    pos = rng.choice([0, 0, 1, 2])
+    if pos >= size - 1:
+        pos = 0
+    off = rng.choice([0, 1, 2, 3]) * size + rng.choice([0, 0, 2, 4])
+    avail = size - pos
+    ops, k = [], 0
+    while k < avail:                       # sizes that sum up exactly to the partition
+        n = min(avail - k, rng.choice([1, 1, 1, 2, 2, 3]))
+        ops.append(['a', n, rng.randrange(1000)])
+        k += n
+    ops.append(['a', 1, 0])                # full: must be None
+    nblocks = len(ops) - 1
+    order = list(range(nblocks))
+    rng.shuffle(order)
+    for j in order[:rng.randint(min(2, nblocks), nblocks)]:
+        ops.append(['fi', j])              # free the j-th allocation made above (resolved while running)
+        if rng.random() < 0.3:
+            ops.append(['a', rng.choice([1, 2, avail]), rng.randrange(1000)])
+    ops.append(['a', avail, 0])
+    ops.append(['a', 1, 0])
+    return size, pos, off, ops
+
+
+def resolve_fill(size, pos, off, ops):
+    a = eng.ContiguousBlockAllocator(size, pos, off)
+    got, out = [], []
+    for op in ops:
+        if op[0] == 'a':
+            CH.r = op[2]
+            try:
+                got.append(a.alloc(op[1]))
+            except Exception:
+                out.append(op)
+                break
+            out.append(op)
+        else:
+            addr = got[op[1]] if op[1] < len(got) else None
+            if addr is None:
+                continue
+            try:
+                a.free(addr)
+            except Exception:
+                out.append(['f', addr])
+                break
+            out.append(['f', addr])
+    return out
+
+
 def resolve(size, pos, off, ops):
     """Replace placeholder frees by addresses actually returned (free in random order of liveness)."""
     a = eng.ContiguousBlockAllocator(size, pos, off)
@@ -116,6 +168,10 @@ def main():
         ops = [[o[0], rng.randrange(1000)] if o[0] == 'f' else o for o in ops]   # 'x' keeps its raw address
         ops = resolve(size, pos, off, ops)
         consider(size, pos, off, ops)
+        if tried % 3 == 0:
+            tried += 1
+            size, pos, off, ops = gen_fill(rng)
+            consider(size, pos, off, resolve_fill(size, pos, off, ops))
         if len(found) >= 40:
             break
     found.sort(key=lambda f: (len(f['ops']), f['size'], f['off']))
